@@ -26,7 +26,8 @@ RULE = ('one evaluation = one case = a batch of runs; a run = a fresh container 
         'negative, also above sys.maxsize) and 1..4 devices, queries interleaved with edits; Records payloads include a '
         'legal-but-falsy record (empty path, empty RecordWifi()/RecordBluetooth(), all-zero RecordGnss) and records that are '
         'distinct objects comparing equal, in the enumerated stream (2 extra symbols) and in up to half of the random sets; (M) ill-typed calls mixed '
-        'into R. Non-trivial = the case has a run with an edit followed by a query; distinct = distinct batch content.')
+        'into R; (T) 11..40 timestamps of mixed digit counts, the same entries built in 3 of {sorted, reversed, shuffled, odd '
+        'ones in the middle/first/last} orders plus delete-and-reinsert moves, timestamp_length/sorted/membership after each. Non-trivial = the case has a run with an edit followed by a query; distinct = distinct batch content.')
 TRUSTED = ['quaternion.slerp / PoseTransform arithmetic inside compute_intermediate_pose: section variable `interp` '
            '(no contract needed: the theorems hold for every function); the harness observes the bracket of an '
            'interpolated pose exactly, by recording the arguments of kapture.core.Trajectories.compute_intermediate_pose '
@@ -244,6 +245,59 @@ def _random_run(rng, kind, n_ops, malformed):
     return {'kind': kind, 'ops': ops}
 
 
+def _tslen_case(rng):
+    """(T) more than 10 timestamps, almost all of one digit count and a few of another one, the same entries
+    reached by several edit orders (sorted, reversed, shuffled, the odd ones inserted in the middle / first / last,
+    delete-and-reinsert moves): timestamp_length, the sorted list and membership may not tell the orders apart."""
+    k = rng.randint(2, 18)
+    n = rng.randint(11, 40)
+    m = rng.choice([1, 1, 2, 3])
+    main = set()
+    while len(main) < n - m:
+        main.add(rng.randint(10 ** (k - 1), 10 ** k - 1))
+    kk = k + rng.choice([-1, 1])
+    odd = set()
+    while len(odd) < m:
+        odd.add(rng.randint(10 ** (kk - 1), 10 ** kk - 1))
+    main, odd = sorted(main), sorted(odd)
+    if rng.random() < 0.2:          # digit counts do not depend on the sign
+        main = [-x for x in main]
+    devs = rng.sample(['cam0', 'cam1', 'lidar0'], rng.choice([1, 2]))
+    runs = []
+    for mode in rng.sample(['sorted', 'reversed', 'shuffled', 'odd-middle', 'odd-middle', 'odd-first', 'odd-last'], 3):
+        if mode in ('sorted', 'reversed'):
+            order = sorted(main + odd, reverse=(mode == 'reversed'))
+        elif mode == 'shuffled':
+            order = main + odd
+            rng.shuffle(order)
+        else:
+            order = list(main)
+            rng.shuffle(order)
+            for x in odd:
+                pos = {'odd-middle': rng.randint(6, max(6, len(order) - 4)), 'odd-first': 0, 'odd-last': len(order)}[mode]
+                order.insert(pos, x)
+        ops, pid = [], 0
+        probe = [['tslen'], ['sorted'], ['ht', odd[0]], ['hp', main[0], devs[0]], ['len']]
+        for t in order:
+            pid += 1
+            ops.append(['sp', t, rng.choice(devs), pid])
+            if rng.random() < 0.05:
+                ops.append(['tslen'])
+        ops += probe
+        # delete-and-reinsert moves: the moved timestamps become the last inserted ones
+        for t in rng.sample(order, rng.randint(3, 8)):
+            pid += 1
+            ops += [['dt', t], ['sp', t, devs[0], pid]]
+        ops += probe
+        for t in odd:
+            ops.append(['dt', t])
+        ops += [['tslen'], ['sorted']]
+        pid += 1
+        ops += [['sp', odd[0], devs[-1], pid], ['tslen']]
+        runs.append({'kind': 'traj', 'ops': ops})
+    return {'runs': runs, 'digits': [], 'tag': 'tslen-orders'}
+
+
 def _digit_samples(rng, n):
     out = [0, 9, 10, -9, -10, 10 ** 17 - 1, 10 ** 15 - 1, 10 ** 16 - 1, 10 ** 18 - 1, 10 ** 19 - 1, sys.maxsize,
            2 ** 53, 2 ** 53 + 1, 10 * 2 ** 53 + 5]
@@ -299,6 +353,9 @@ def gen_cases(rng, tier):
         kind = KINDS[1 + i % 6]
         cases.append({'runs': [_random_run(rng, kind, n_ops, malformed=(i % 3 == 0))], 'digits': [],
                       'tag': 'rand-' + kind + ('+bad' if i % 3 == 0 else '')})
+    # (T) the same >10 timestamps of mixed digit counts reached by several edit orders
+    for i in range(80 if quick else 800):
+        cases.append(_tslen_case(rng))
     # digit counter samples
     cases.append({'runs': [], 'digits': _digit_samples(rng, 400 if quick else 4000), 'tag': 'digits'})
     return cases
@@ -636,14 +693,18 @@ def _run_ops(run, rec):
         outs.append(res)
         plain.expected(op)
         if k == 'tslen':
-            # the same question put to a container that received the same content in one pass
-            f = _new_container(kind)
-            for (t, d), pid in sorted(plain.m.items()):
-                f[t, d] = objs[pid]
-            try:
-                fresh[str(i)] = ['int', int(f.timestamp_length())]
-            except Exception as e:
-                fresh[str(i)] = ['err', type(e).__name__]
+            # the same question put to containers that received the same entries in one pass, in ascending and in
+            # descending order: the answer may only depend on the entries, so all three must agree
+            answers = []
+            for items in (sorted(plain.m.items()), sorted(plain.m.items(), reverse=True)):
+                f = _new_container(kind)
+                for (t, d), pid in items:
+                    f[t, d] = objs[pid]
+                try:
+                    answers.append(['int', int(f.timestamp_length())])
+                except Exception as e:
+                    answers.append(['err', type(e).__name__])
+            fresh[str(i)] = answers
     return {'outs': outs, 'fresh': fresh}
 
 
@@ -676,9 +737,9 @@ def _judge_run(run, robs):
         if exp is None:
             continue
         if exp == ['same-as-fresh']:
-            exp = robs['fresh'].get(str(i))
-            if got != exp:
-                return i, f'{where}: timestamp_length differs from a container with the same content built in one pass'
+            others = robs['fresh'].get(str(i)) or [None]
+            if any(got != e for e in others):
+                return i, f'{where}: timestamp_length differs between containers holding the same entries (other edit order)'
             continue
         if got != exp:
             if got[0] == 'err':
